@@ -98,11 +98,13 @@ PROFILES = {
     "C13": {"quick": [SEED2, SHRINK2, FAIL2, SCALE, dq("all")], "thorough": [SEED3, CORE4, SHRINK2, FAIL2, SIZES2, SCALE, dt("all")]},
     "C14": {"quick": [CONV], "thorough": [CONV, {"kind": "sweep", "what": "u32"}, {"kind": "sweep", "what": "i32"}]},
     "C15": {"quick": [CONV, SEED1], "thorough": [CONV, SEED2, {"kind": "sweep", "what": "f32"}]},
-    "C16": {"quick": [{"kind": "codec", "cfg": "MC_Codec_u8_q"}, {"kind": "codec", "cfg": "MC_Codec_u16_q"}, mc("MC_Decode_d2"), dq("mixed")],
-            "thorough": [{"kind": "codec", "cfg": "MC_Codec_u8_t"}, {"kind": "codec", "cfg": "MC_Codec_u16_t"}, mc("MC_Decode_d2"), dt("mixed")]},
+    "C16": {"quick": [{"kind": "codec", "cfg": "MC_Codec_u8_q"}, {"kind": "codec", "cfg": "MC_Codec_u16_q"}, {"kind": "codec", "cfg": "MC_Codec_u8_all"}, {"kind": "codec", "cfg": "MC_Codec_u16_all"},
+                      mc("MC_Decode_d2"), dq("mixed")],
+            "thorough": [{"kind": "codec", "cfg": "MC_Codec_u8_t"}, {"kind": "codec", "cfg": "MC_Codec_u16_t"}, {"kind": "codec", "cfg": "MC_Codec_u8_all"}, {"kind": "codec", "cfg": "MC_Codec_u16_all"},
+                         mc("MC_Decode_d2"), dt("mixed")]},
     "C17": {"quick": [PAIRS2, dq("mixed")], "thorough": [PAIRS2, SEED2, dt("mixed")]},
     "C18": {"quick": [SEED2, dq("callbacks")], "thorough": [SEED3, FAIL2, dt("callbacks")]},
-    "C19": {"quick": [{"kind": "codec", "cfg": "MC_Codec_u8_q"}, CONV], "thorough": [{"kind": "codec", "cfg": "MC_Codec_u8_t"}, CONV]},
+    "C19": {"quick": [{"kind": "codec", "cfg": "MC_Codec_u8_q"}, {"kind": "codec", "cfg": "MC_Codec_u8_all"}, CONV], "thorough": [{"kind": "codec", "cfg": "MC_Codec_u8_t"}, CONV]},
     "C20": {"quick": [FINAL2, matrix([CORE3, SEED1, drive("q-mixed", 4, 100, "all", 4), {"kind": "conv", "files": 2}])],
             "thorough": [FINAL2, matrix([CORE3, SEED2, drive("t-mixed", 10, 200, "all", 8), CONV])]},
 }
